@@ -709,7 +709,7 @@ pub fn run(cfg: &Cfg, sink: &Arc<Sink>) -> Report {
     let n = templates().len();
     let (depth_all, depth_t1, contexts): (u8, u8, Vec<usize>) = match cfg.tier {
         Tier::Quick => (2, 2, vec![0, 1, 3]),
-        Tier::Thorough => (3, 3, vec![0, 1, 2, 3, 5, 10]),
+        Tier::Thorough => (3, 3, vec![0, 1, 3, 10]),
     };
     for ti in 0..n {
         let depth = if ti == 0 { depth_t1 } else { depth_all };
